@@ -136,6 +136,23 @@ TEXT = {
               "in the window is in that batch). Bounded delay after the window under rejected traffic is stated for the eager scheduler; its numeric value on a real scheduler is "
               "reported (worst lateness) but not proved."),
         note=COMMON_NOTE + "Modelled: the priority channel, tokio timeout, std Instant. Real-time runs."),
+    "C12": dict(
+        design_ref="§7 C12",
+        technique="Lean 4 proof by complete enumeration (`decide`) over all 64 flag combinations (x with/without a project git-config excludes file) of a provenance-class model of the CLI's ignore-file assembly; exhaustive differential execution of the real WatchexecFilterer over the same space",
+        text=("Theorems over the complete finite space: c12_explicit_always / c12_explicit_all (the explicit ignore file, --ignore, --filter/--filter-file, --exts, --fs-events reach the "
+              "filterer under every combination; built-in defaults go exactly with --no-default-ignore / --ignore-nothing), c12_exact / c12_exact_gitcfg (a discovered source reaches it iff "
+              "no set flag names it; a project-level core.excludesFile replaces the global git excludes whenever the project config is read), c12_flags_effective, and c12_today_52 as the "
+              "witness that the pre-repair assembly lost the explicit file in 52 combinations. The model is compared with the real CLI filterer (hook H1) on all 128 x 5 constructions."),
+        note=COMMON_NOTE + "Modelled: ignore-file discovery results as provenance classes; clap and normalise() run for real."),
+    "C08": dict(
+        design_ref="§7 C08",
+        technique="Lean 4 invariant proofs on the job-task model (after Stop nothing runs and no timer is armed, so the trailing Delete ends the task with nothing live; after GracefulStop no new process starts) composed per job by the check driver; differential execution of a real Watchexec instance (simulated children, virtual time) and a real-process stream",
+        text=("Theorems: c08_delete_after_stop (every configuration: whenever recv is about to return a Delete queued behind a Stop, nothing is running, nothing is un-reaped, and handling "
+              "it ends the task), c08_delete_idle (during a quit the restart slot is empty and no process is started), timer_fires / expiry_kills / graceful_stop_step (kill exactly at "
+              "the grace deadline). The worker's quit branch is composed from per-job model runs by the driver: the real main task must finish exactly when the slowest job's model run "
+              "ends, and the property's own time bound and 'nothing left alive' are checked as oracles. Partial: the time bound is not a Lean theorem; process-group members surviving "
+              "graceful quit / abort of a grouped command are recorded known findings (F15a, F15b), observed by the real-process stream on every run."),
+        note=COMMON_NOTE + "Modelled: tokio mpsc/select!/paused clock, process-wrap child (scripted child through the public spawn hook), SeqCst reading of the Relaxed atomics."),
 }
 
 NOT_APPLICABLE = {}
